@@ -176,5 +176,5 @@ def run(case):
     return res
 
 
-PROFILES = {"dykstra": Profile("dykstra", cases, run, quick=20000, thorough=600000, timeout=120)}
+PROFILES = {"dykstra": Profile("dykstra", cases, run, quick=20000, thorough=600000, timeout=120, fuzz=(1000, 40000))}
 KNOWN = {}
